@@ -98,7 +98,11 @@ impl TestExamplesOutput {
     fn create_result(router: &Router<Rule>, max_hops: u8, project_domains: Vec<String>) -> TestExamplesOutput {
         let mut results = TestExamplesOutput::default();
 
-        for (id, route) in router.routes() {
+        // Iterate in id order: the result (which failures are kept as a sample) must not depend on the hash map order
+        let mut routes: Vec<_> = router.routes().iter().collect();
+        routes.sort_by(|(a, _), (b, _)| a.cmp(b));
+
+        for (id, route) in routes {
             let examples = &route.handler().examples;
 
             if examples.is_none() {
